@@ -535,7 +535,15 @@ func (o *Options) GetCompactionTotalSize(level int) int64 {
 		if level < len(o.CompactionTotalSizeMultiplierPerLevel) && o.CompactionTotalSizeMultiplierPerLevel[level] > 0 {
 			mult = o.CompactionTotalSizeMultiplierPerLevel[level]
 		} else if o.CompactionTotalSizeMultiplier > 0 {
-			mult = math.Pow(o.CompactionTotalSizeMultiplier, float64(level))
+			// With a multiplier below one the limits shrink towards zero
+			// with the level: a table that reaches such a level exceeds its
+			// limit whatever its size, is moved to the next level, exceeds
+			// that limit too, and so on without end.
+			m := o.CompactionTotalSizeMultiplier
+			if m < 1 {
+				m = 1
+			}
+			mult = math.Pow(m, float64(level))
 		}
 	}
 	if mult == 0 {
